@@ -447,6 +447,39 @@ def judge_query(t, D, op, args, impl):
     return True, ""
 
 
+
+def run_implementation(ck, harness, lines, index):
+    """run the harness on all request lines; when it aborts (sanitizer, uncaught exception) the request being
+    processed is recorded as a crash and the run resumes after it (the current table is re-installed first)"""
+    answers = ["skipped"] * len(lines)
+    crashes = []
+    start = 0
+    prefix = []
+    for _ in range(8):
+        feed = prefix + lines[start:]
+        p = ck.run([harness], input="".join(l + "\n" for l in feed), timeout=3000)
+        out = p.stdout.splitlines()[len(prefix):]
+        for j, a in enumerate(out[:len(lines) - start]):
+            answers[start + j] = a
+        k = start + len(out)
+        if k >= len(lines):
+            break
+        answers[k] = "crash"
+        crashes.append((k, p.stderr[-2500:]))
+        if index[k][1] is None:
+            # the table could not even be installed : skip its queries
+            k += 1
+            while k < len(lines) and index[k][1] is not None:
+                k += 1
+            start, prefix = k, []
+        else:
+            start = k + 1
+            prefix = [index[k][0].header()] if start < len(lines) and index[start][1] is not None else []
+        if start >= len(lines):
+            break
+    return answers, crashes
+
+
 def run(ck):
     rng = random.Random(ck.seed)
     harness = ck.cxx("c11h", ["C11/harness.cxx", vlib.REPO + "/src/Math/CubicSpline.cxx",
@@ -495,15 +528,28 @@ def run(ck):
             lines.append(q[2])
             index.append((t, q))
     text = "".join(l + "\n" for l in lines)
-    pi = ck.run([harness], input=text, timeout=3000)
+    impl, crashes = run_implementation(ck, harness, lines, index)
     pm = ck.run([driver], input=text, timeout=3000)
-    if pi.returncode != 0:
-        ck.violation("harness-crash", "the implementation harness aborted (sanitizer or crash)",
-                     {"stderr": pi.stderr[-2000:]}, False)
     if pm.returncode != 0:
         ck.violation("driver-crash", "the model driver aborted", {"stderr": pm.stderr[-2000:]}, False)
-    impl = pi.stdout.splitlines()
     model = pm.stdout.splitlines()
+    for (k, err) in crashes[:3]:
+        t, q = index[k]
+        op = "tab" if q is None else q[0]
+        strictly = all(t.X[j] < t.X[j + 1] for j in range(t.n - 1))
+        kind = "unknown"
+        for w in ("heap-buffer-overflow", "stack-buffer-overflow", "SEGV", "runtime error", "terminate called", "Assertion"):
+            if w in err:
+                kind = w
+                break
+        ck.violation("%s:crash" % SITE[op],
+                     "%s on a %d-node %s table: the implementation crashes (%s) instead of returning a value" % (op, t.n, t.kind, kind),
+                     {"function": op, "site": SITE[op], "n": t.n, "table_kind": t.kind, "abscissae": t.X, "values": t.Y,
+                      "slopes_given": t.Dgiven, "request_lines": [t.header()] + ([q[2]] if q else []),
+                      "arguments": list(q[1]) if q else None, "model": model[k][:300] if k < len(model) else "?",
+                      "stderr": err, "table_strictly_increasing": strictly,
+                      "how_to_replay": "feed request_lines to the harness built from harness/C11/harness.cxx (doubles as IEEE-754 hex)"},
+                     strictly and t.n > 0)
 
     branches = {}
     kinds = {}
@@ -513,6 +559,7 @@ def run(ck):
     reported = set()
     slopes = {}         # id(table) -> implementation slopes (floats) or None
     nan_lines = 0
+    skipped_lines = 0
     for i, (t, q) in enumerate(index):
         a = impl[i] if i < len(impl) else "missing"
         m = model[i] if i < len(model) else "missing"
@@ -537,6 +584,9 @@ def run(ck):
         if "nan" in m:
             nan_lines += 1
         if a == m:
+            continue
+        if a in ("crash", "skipped"):
+            skipped_lines += 1
             continue
         disagreements += 1
         op = "tab" if q is None else q[0]
@@ -570,9 +620,9 @@ def run(ck):
         else:
             ck.violation("corr:" + key, "correspondence Model.lean vs %s broken (%d-node %s table, branch %s)%s" % (
                 SITE[op], t.n, t.kind, br, "; the implementation's answer still satisfies the property" if holds else "; " + why), rep, False)
-    if len(impl) != len(lines) or len(model) != len(lines):
-        ck.violation("corr:line-count", "harness/driver answered %d/%d lines for %d requests" % (len(impl), len(model), len(lines)),
-                     {"impl_lines": len(impl), "model_lines": len(model), "requests": len(lines)}, False)
+    if len(model) != len(lines):
+        ck.violation("corr:line-count", "the model driver answered %d lines for %d requests" % (len(model), len(lines)),
+                     {"model_lines": len(model), "requests": len(lines)}, False)
     ck.assumptions += [
         "M: Model.lean is tied to the C++ templates by differential execution on double, compared bit for bit (slopes, values, first and second derivatives, integrals, mean values, error kinds)",
         "floating point: the theorems are about the algorithms over a linearly ordered field; rounding errors are not modelled",
@@ -592,5 +642,6 @@ def run(ck):
         "traces_validated_against_impl": len(lines),
         "branch_histogram": branches, "table_kind_histogram": kinds, "table_size_histogram": sizes_seen,
         "build_outcome_histogram": build_outcomes, "nan_answers": nan_lines,
+        "implementation_crashes": len(crashes), "lines_not_compared_after_crash": skipped_lines,
         "samples": samples,
     })
